@@ -191,6 +191,27 @@ def gen_runs(ctx):
                     kg_meat_per_large_animal=320.5, shutoff="short_delayed_shutoff")),
     ]
     jobs = [{"iso3": c, "option": o} for c, o in anchors]
+    # ordered pairs executed in ONE worker process: the first run must leave nothing behind that the second one reuses
+    # (same country / horizon / strategy / shut-off, hence the same feed offered to the herds, different grass ...)
+    pairs = [("ARG", opt(NMONTHS=72, grasses="baseline"), opt(NMONTHS=72))]
+    if not ctx.quick:
+        cs = all_countries()
+        for _ in range(10):
+            c = rng.choice(cs)
+            base = random_option(rng)
+            second = dict(base)
+            what = rng.choice(["grasses", "grasses", "grasses", "kg", "strategy", "waste"])
+            if what == "grasses":
+                base["grasses"], second["grasses"] = rng.sample(["baseline", "global_nuclear_winter", "country_nuclear_winter"], 2)
+            elif what == "kg":
+                base["kg_meat_per_large_animal"], second["kg_meat_per_large_animal"] = 150, 400
+            elif what == "strategy":
+                base["meat_strategy"], second["meat_strategy"] = rng.sample(["reduce_breeding", "baseline_breeding", "feed_only_ruminants"], 2)
+            else:
+                base["waste"], second["waste"] = "zero", "tripled_prices_in_country"
+            pairs.append((c, base, second))
+    for c, first, second in pairs:
+        jobs.append({"iso3": c, "option": second, "prelude": [{"iso3": c, "option": first}]})
     pool = all_countries()
     extra = 2 if ctx.quick else len(pool)
     rng.shuffle(pool)
@@ -335,7 +356,11 @@ def run(ctx):
     big_terms, big_meta = [], []
     for job, r in zip(jobs, res["runs"]):
         run_stats["runs"] += 1
-        tag = f"{job['iso3']}"
+        tag = f"{job['iso3']}" + (" (after an earlier run in the same process)" if job.get("prelude") else "")
+        if job.get("prelude"):
+            run_stats["sequenced_pairs"] = run_stats.get("sequenced_pairs", 0) + 1
+            run_stats["compared_with_solo"] = run_stats.get("compared_with_solo", 0) + (
+                1 if r.get("audit", {}).get("stats", {}).get("compared_with_solo") else 0)
         if "err" in r:
             run_stats["crashed"] += 1
             ctx.log("run crashed:", tag, r["err"][:300])
@@ -352,7 +377,8 @@ def run(ctx):
         for f in aud["failures"][:3]:
             run_stats["audit_failures"] += 1
             ctx.violation(f"C05:{f['kind']}@run", f"{tag}: {f['what']}",
-                          {"kind": "counterexample", "iso3": job["iso3"], "option": job["option"], "failure": f})
+                          {"kind": "counterexample", "iso3": job["iso3"], "option": job["option"],
+                           "prelude": job.get("prelude", []), "failure": f})
         cap = r["capture"]
         herds, events = cap["herds"], cap["events"]
         cur, aborted, r3, last_bump, rnd = None, False, None, None, 0
@@ -415,7 +441,7 @@ def run(ctx):
                 elif kind == "bump":
                     rep.update({"bump_case": c, "observed": r})
                 else:
-                    rep.update({"iso3": c["iso3"], "option": c["option"], "where": r})
+                    rep.update({"iso3": c["iso3"], "option": c["option"], "prelude": c.get("prelude", []), "where": r})
                 ctx.violation(f"C05:tie:{kind}:{name}", f"model and implementation disagree ({name}) on a {kind} case "
                               + (f"{c['iso3']} {r}" if kind == "run" else ""), rep)
     ctx.notes["correspondence"] = {"cases": len(terms) + len(big_terms), "disagreements": nbad, "distribution": dist,
